@@ -103,8 +103,8 @@ def run(run):
                 idx_mut = [i for i, s in enumerate(st) if any(is_call(x, n["n"]) and self_field_term(x[2][0], "node_values") for x in S.subterms(s))]
                 ok = False
                 for i, s in enumerate(st):
-                    if idx_mut and i < idx_mut[0] and s[0] == "match":
-                        it = s[1]
+                    if idx_mut and i < idx_mut[0] and s[0] == "for":
+                        it = s[2]
                         if any(is_call(x, ("keys", "iter")) and self_field_term(x[2][0], "node_values") for x in S.subterms(it)):
                             ins = [x for x in S.subterms(s) if is_call(x, "insert") and self_field_term(x[2][0], "worklist")]
                             filt = any(is_call(x, ("filter", "take", "skip", "step_by", "take_while", "skip_while")) for x in S.subterms(it))
